@@ -223,6 +223,70 @@ fn c10_sum(ctx: &mut Ctx) {
     ctx.set_nontrivial(dds.len() >= 2);
 }
 
+
+/// long sequences: lengths around powers of two (block/chunk boundaries of any blocked or
+/// pairwise summation) up to 2^16 + 2, terms derived from the case words by a pure mixing function
+pub fn c10_sum_long(ctx: &mut Ctx) {
+    let kind = ctx.below(4);
+    let len = match ctx.weighted(&[3, 6, 2]) {
+        0 => ctx.range(0, 300) as usize,
+        1 => {
+            let k = ctx.range(5, 16);
+            ((1i64 << k) + ctx.range(-2, 3)).max(0) as usize
+        }
+        _ => ctx.range(300, 70_000) as usize,
+    };
+    let s0 = ctx.word();
+    let s1 = ctx.word();
+    let style = ctx.below(3);
+    ctx.key_u64(kind);
+    ctx.key_u64(len as u64);
+    ctx.key_u64(s0 ^ s1.rotate_left(17));
+    ctx.key_u64(style);
+    ctx.note("shape", || format!("{} terms of kind {}, style {}", len, ["TwoFloat", "&TwoFloat", "f64", "&f64"][kind as usize], style));
+    let mix = |i: u64, j: u64| -> u64 {
+        let mut z = s0 ^ i.wrapping_mul(0x9E3779B97F4A7C15) ^ j.wrapping_mul(0xD1B54A32D192ED03) ^ s1.rotate_left((i % 63) as u32);
+        z = (z ^ (z >> 30)).wrapping_mul(0xBF58476D1CE4E5B9);
+        z = (z ^ (z >> 27)).wrapping_mul(0x94D049BB133111EB);
+        z ^ (z >> 31)
+    };
+    let mut tfs: Vec<TwoFloat> = Vec::with_capacity(len);
+    let mut fs: Vec<f64> = Vec::with_capacity(len);
+    for i in 0..len as u64 {
+        let d = match style {
+            0 => {
+                // values of mixed sign and magnitude with full low words (every addition rounds)
+                let cw = CaseWords { head: (0..12).map(|j| mix(i, j)).collect(), items: vec![] };
+                let mut c2 = Ctx::new(&cw, &[]);
+                dd_exp(&mut c2, -30, 30, true)
+            }
+            1 => {
+                // +-1/k: slowly varying magnitudes
+                let v = 1.0 / (i as f64 + 1.0) * if mix(i, 0) & 1 == 0 { 1.0 } else { -1.0 };
+                Dd::of(TwoFloat::new_div(v.signum(), i as f64 + 1.0))
+            }
+            _ => Dd::new((mix(i, 1) >> 11) as f64 * 1e-3, 0.0),
+        };
+        tfs.push(d.tf());
+        fs.push(d.hi);
+    }
+    let got = g(|| match kind {
+        0 => tfs.iter().copied().sum::<TwoFloat>(),
+        1 => tfs.iter().sum::<TwoFloat>(),
+        2 => fs.iter().copied().sum::<TwoFloat>(),
+        _ => fs.iter().sum::<TwoFloat>(),
+    });
+    let fold = g(|| {
+        let mut acc = TwoFloat::from(0.0);
+        for i in 0..len {
+            acc = if kind < 2 { acc + tfs[i] } else { acc + fs[i] };
+        }
+        acc
+    });
+    check!(ctx, same_r(&got, &fold), "Iterator::sum over {} terms = {} differs from the left fold with + from zero = {}", len, show_r(&got), show_r(&fold));
+    ctx.set_nontrivial(len >= 2);
+}
+
 // ---------------------------------------------------------------- trait entry points
 
 type U = (&'static str, fn(TwoFloat) -> TwoFloat, fn(TwoFloat) -> TwoFloat);
@@ -472,6 +536,7 @@ pub fn c10() -> Property {
             gsc("forms_tf_ft", c10_forms_tf, 48, 800_000, 20_000_000),
             gsc("identities", c10_identities, 64, 800_000, 20_000_000),
             SubCheck { name: "sum", kind: Kind::Generated { words: 2, max_items: 30 }, eval: c10_sum, quick: 60_000, thorough: 2_000_000 },
+            gsc("sum_long", c10_sum_long, 12, 1_500, 40_000),
             gsc("traits_unary", c10_unary, 48, 800_000, 20_000_000),
             gsc("traits_binary", c10_binary, 96, 400_000, 10_000_000),
         ],
